@@ -68,6 +68,10 @@ def calibration_case(rec, seedt, tier):
         b0 = float(np.clip(round(b0), math.ceil(2 * ml), math.floor(L / 2 - ml)))
         zone = "wide"
     A = 10 ** rng.uniform(-3, 3)
+    if rng.random() < 0.3:
+        # the same sinusoid in a unit 2^k times smaller or larger (amplitudes 1e-63 .. 1e42)
+        A = A * 2.0 ** int(rng.choice([-200, -100, -40, 40, 130]))
+        rec.count("calibrations_in_rescaled_units")
     phi = float(rng.uniform(0, 2 * math.pi))
     fs = gen.loguniform(rng, 1e-2, 1e5)
     K = int(rng.integers(1, 7))
@@ -127,6 +131,8 @@ def plan_calibration_case(rec, seedt):
     ml = refmodel.mainlobe_halfwidth("kaiser", psll)
     sched = str(rng.choice(gen.SCHEDS))
     A = 10 ** rng.uniform(-2, 2)
+    if rng.random() < 0.3:
+        A = A * 2.0 ** int(rng.choice([-200, -100, -40, 40, 130]))
     fs = float(rng.choice([1.0, 50.0, 2048.0]))
     desc = {"kind": "plan-calibration", "seed": list(seedt), "N": N, "psll": round(psll, 2),
             "sched": sched, "A": A, "fs": fs}
